@@ -20,7 +20,7 @@ def run(ctx):
     ctx.assumptions += ["sequential calls (one snapshot per call); concurrent AddTask between snapshot and hand-out is outside this property's quantifier",
                         "float64 arithmetic compared with exact rationals up to 1e-9 relative; integer GH/s, whole-second durations in the generator",
                         "a float division by zero in durationToDoJobWithMiner converts to a negative Duration (amd64) => miner skipped"]
-    L.regen(ctx, ["C11", "C20"])
+    L.regen(ctx, ["C11", "C20", "Wiring"])
     L.prove(ctx)
     if not L.build_driver(ctx):
         return
